@@ -1860,7 +1860,9 @@ class Interp:
             if len(args) == 2:
                 a = self._deref_all(path, args[0])
                 b = self._deref_all(path, args[1])
-                r = self.binop(path, "Eq" if name.endswith("::eq") else "Ne", a, b, 8)
+                r = self.struct_eq(path, a, b)
+                if not name.endswith("::eq"):
+                    r = self.binop(path, "Eq", r, INT(0, 8), 8)
                 return self._multi(path, frame, t, [(r, path)], depth)
         # --- Option<&T>::copied / cloned: the payload reference is read through
         if name.startswith(("std::option::Option::<&T>::", "std::option::Option::<&mut T>::")) and \
@@ -2195,6 +2197,27 @@ class Interp:
         if meth in ("max", "min"):
             return None
         return gen()
+
+    def struct_eq(self, path, a, b, depth=0):
+        """a == b as a boolean term; Options / Results / tuples with known variants are compared payload by payload
+        (references are read through), so `map.get(k) == Some(&v)` becomes the comparison of the two integers"""
+        a, b = self._deref_all(path, a), self._deref_all(path, b)
+        if depth < 4 and a[0] == "agg" and b[0] == "agg" and a[1] == b[1] and (a[1] in (OPTION, RESULT) or a[1] == "tuple") \
+                and (a[1] == "tuple" or (a[2] is not None and b[2] is not None)) and len(a[3]) == len(b[3]) or \
+                (depth < 4 and a[0] == "agg" and b[0] == "agg" and a[1] == b[1] and a[1] in (OPTION, RESULT)
+                 and a[2] is not None and b[2] is not None and a[2] != b[2]):
+            if a[1] != "tuple" and a[2] != b[2]:
+                return INT(0, 8)
+            acc = INT(1, 8)
+            for x, y in zip(a[3], b[3]):
+                e = self.struct_eq(path, x, y, depth + 1)
+                if is_int(e):
+                    if e[1] == 0:
+                        return INT(0, 8)
+                    continue
+                acc = e if is_int(acc) else self.binop(path, "BitAnd", acc, e, 8)
+            return acc
+        return self.binop(path, "Eq", a, b, 8)
 
     def scalar_rank(self, v):
         """(domain, rank) of a ground integer or a constant of a field-less enum (rank = discriminant), else None"""
